@@ -7,6 +7,7 @@ import (
 
 	"github.com/zerx-lab/wordZero/pkg/document"
 	"github.com/yuin/goldmark/ast"
+	"github.com/yuin/goldmark/util"
 
 	// 添加goldmark扩展的AST节点支持
 	extast "github.com/yuin/goldmark/extension/ast"
@@ -160,7 +161,7 @@ func (r *WordRenderer) renderInlineContent(node ast.Node, para *document.Paragra
 	for child := node.FirstChild(); child != nil; child = child.NextSibling() {
 		switch n := child.(type) {
 		case *ast.Text:
-			text := string(n.Segment.Value(r.source))
+			text := r.textValue(n)
 			para.AddFormattedText(text, nil)
 			
 			// 处理软换行（单个\n）
@@ -169,6 +170,10 @@ func (r *WordRenderer) renderInlineContent(node ast.Node, para *document.Paragra
 			if n.SoftLineBreak() {
 				para.AddFormattedText(" ", nil)
 			}
+
+		case *ast.AutoLink:
+			// 自动链接（<http://...> 以及GFM的裸URL）显示其地址文本
+			para.AddFormattedText(string(n.Label(r.source)), &document.TextFormat{FontColor: "0000FF"})
 
 		case *ast.Emphasis:
 			text := r.extractTextContent(n)
@@ -401,6 +406,18 @@ func (r *WordRenderer) renderImageInline(node *ast.Image, para *document.Paragra
 	}
 }
 
+// textValue 返回Text节点的可见文本：还原反斜杠转义和字符实体引用（原始文本除外）
+func (r *WordRenderer) textValue(n *ast.Text) string {
+	value := n.Segment.Value(r.source)
+	if n.IsRaw() {
+		return string(value)
+	}
+	value = util.UnescapePunctuations(value)
+	value = util.ResolveNumericReferences(value)
+	value = util.ResolveEntityNames(value)
+	return string(value)
+}
+
 // extractTextContent 提取节点的文本内容
 func (r *WordRenderer) extractTextContent(node ast.Node) string {
 	var buf strings.Builder
@@ -413,7 +430,13 @@ func (r *WordRenderer) extractTextContentRecursive(node ast.Node, buf *strings.B
 	for child := node.FirstChild(); child != nil; child = child.NextSibling() {
 		switch n := child.(type) {
 		case *ast.Text:
-			buf.Write(n.Segment.Value(r.source))
+			buf.WriteString(r.textValue(n))
+			// 软换行/硬换行在拼接文本时保留为一个空格
+			if n.SoftLineBreak() || n.HardLineBreak() {
+				buf.WriteString(" ")
+			}
+		case *ast.AutoLink:
+			buf.Write(n.Label(r.source))
 		default:
 			r.extractTextContentRecursive(child, buf)
 		}
@@ -607,7 +630,7 @@ func (r *WordRenderer) renderTaskItemContent(parent ast.Node, para *document.Par
 
 		switch n := child.(type) {
 		case *ast.Text:
-			text := string(n.Segment.Value(r.source))
+			text := r.textValue(n)
 			para.AddFormattedText(text, nil)
 			
 			// 处理软换行（单个\n）
